@@ -394,4 +394,9 @@ def run(R):
                        'building one packet changes the name object the application keeps using', site(cx, n.ast))
         else:
             R.ok('C01.PRV.2', inst, site(cx, cx.f.node), f'{len(edits)} in-place edits, all on fresh lists')
+    # the parameters-digest component that the round trip must preserve is the digest of the packet as sent: decided by the C02 rules
+    from .common import shared_obligations
+    R.ob('C01.SHR.1', 'shared with C02: the parameters digest is computed after the signature, over the range that ends at the shrunk signature, '
+                      'and written into the digest component of the name')
+    shared_obligations(R, 'C01.SHR.1', 'C02', {'C02.ORD.2': None})
     R.assumptions += ['equality of returned values with inputs for all names / payloads, and the crypto signers themselves, are not decided']
